@@ -204,9 +204,23 @@ Definition j_learn (st : jstate) (i : jin) (m : jmsg) : list (bytes * (nat * boo
                                       (j_flat is_via (jm_headers m)) in
     fold_left (fun l h => aset h (ji_li i, ji_tcp i) l) hosts (js_learned st).
 
+(* a connection the proxy opened: label "dial:<ip>:<port>", payload = the connection's id; it
+   belongs to the listen entry whose event caused it and its peer is the dialled address *)
+Definition dialled (li : nat) (outs : list (bytes * bytes)) : list (nat * (nat * bytes * Z)) :=
+  flat_map (fun o => if is_dial o then
+                       let a := skipn 5 (fst o) in
+                       match last_index_byte ":"%char a, atoi (snd o) with
+                       | Some p, Some id => [(Z.to_nat id, (li, firstn p a, atoi_val (skipn (S p) a)))]
+                       | _, _ => []
+                       end
+                     else []) outs.
 Definition js_step (st : jstate) (ev : event) (outs : list (bytes * bytes)) : jstate :=
+  let li0 := match ev with
+             | EvUdp li _ _ _ => li
+             | EvTcpData c _ => match find (fun x => Nat.eqb (fst x) c) (js_conns st) with Some (_, (li, _, _)) => li | None => O end
+             | _ => O end in
   let base (bk : list (list bytes)) (cs : list (nat * (nat * bytes * Z))) (nc : nat) (ln : list (bytes * (nat * bool))) :=
-    {| js_backends := bk; js_conns := cs; js_next_conn := nc + count_dials outs; js_learned := ln;
+    {| js_backends := bk; js_conns := cs ++ dialled li0 outs; js_next_conn := nc + count_dials outs; js_learned := ln;
        js_event := S (js_event st) |} in
   match ev with
   | EvTcpAccept li ip port =>
